@@ -45,6 +45,8 @@ def _callee_name(call):
     if isinstance(f, ast.Name):
         return f.id
     if isinstance(f, ast.Attribute):
+        if isinstance(f.value, ast.Name) and ('%s.%s' % (f.value.id, f.attr)) in SIGNATURES:
+            return '%s.%s' % (f.value.id, f.attr)
         return f.attr
     return None
 
